@@ -4,9 +4,9 @@
    cancel the parent context at any point of the schedule. *)
 From Coq Require Import List NArith Arith Bool.
 From DS Require Import Base.Bytes Base.Hash Base.Sched Model.Pool Model.VerifyIndex Model.Cancel Model.BulkWrite
-     Model.UnTarIndex Model.ExtractTmp Model.CtxBound Model.StreamIO
+     Model.UnTarIndex Model.ExtractTmp Model.CtxBound Model.StreamIO Model.TarCancel
      Proofs.PoolProofs Proofs.VerifyIndexProofs Proofs.CancelProofs Proofs.BulkWriteProofs
-     Proofs.UnTarIndexProofs Proofs.ExtractTmpProofs Proofs.CtxBoundProofs Proofs.StreamIOProofs.
+     Proofs.UnTarIndexProofs Proofs.ExtractTmpProofs Proofs.CtxBoundProofs Proofs.StreamIOProofs Proofs.TarCancelProofs.
 Import ListNotations.
 
 (* The feeder/worker skeleton after the fix (interrupted flag): for every job count, job body,
@@ -196,6 +196,22 @@ Theorem C07_extract_tmp_removed : forall name tmp create_ok new_ino asm_data asm
 Proof. exact extract_tmp_removed. Qed.
 Print Assumptions C07_extract_tmp_removed.
 
+(* Frame: unless the result is nil no path other than the temp name changes -- neither the file a destination
+   symlink points to nor the link itself; extracting "in place" through such a link is refuted. *)
+Theorem C07_extract_tmp_frame : forall name tmp create_ok new_ino asm_data asm_res rename_ok fs p,
+  p <> tmp ->
+  let '(fs', r) := write_with_tmp name tmp create_ok new_ino asm_data asm_res rename_ok fs in
+  r <> RNil -> fs' p = fs p.
+Proof. exact extract_tmp_frame. Qed.
+Print Assumptions C07_extract_tmp_frame.
+
+Theorem C07_extract_through_link_refuted :
+  exists target new_ino asm_data fs,
+    let '(fs', r) := write_through_link target new_ino asm_data RInterrupted fs in
+    r <> RNil /\ fs' target <> fs target.
+Proof. exact extract_through_link_refuted. Qed.
+Print Assumptions C07_extract_through_link_refuted.
+
 (* The seeded mutation "rename before looking at the error" is refuted. *)
 Theorem C07_extract_rename_first_refuted :
   exists name tmp new_ino asm_data fs,
@@ -204,6 +220,27 @@ Theorem C07_extract_rename_first_refuted :
     r <> RNil /\ fs' name <> fs name.
 Proof. exact extract_rename_first_refuted. Qed.
 Print Assumptions C07_extract_rename_first_refuted.
+
+(* Tar (tar.go): the context is looked at once per entry; nil is only returned for a complete archive in which
+   every payload has the size its header announces, wherever the cancellation arrives -- also inside the payload
+   of the last entry; a cancellation before the last entry is reported; a payload reader that stops at the
+   cancellation is refuted. *)
+Theorem C07_tar_walk_sound : forall sizes cancel_at i cancelled w,
+  tar_walk true sizes i cancelled cancel_at = (w, WNil) -> w = sizes.
+Proof. exact tar_walk_sound. Qed.
+Print Assumptions C07_tar_walk_sound.
+
+Theorem C07_tar_walk_interrupted : forall sizes e r,
+  S e < length sizes -> snd (tar_walk true sizes 0 false (Some (e, r))) = WInterrupted.
+Proof. exact tar_walk_interrupted. Qed.
+Print Assumptions C07_tar_walk_interrupted.
+
+Theorem C07_tar_walk_mutant_refuted :
+  exists sizes e r,
+    tar_walk false sizes 0 false (Some (e, r)) = ([3; 2], WNil) /\ sizes = [3; 5] /\
+    tar_walk true sizes 0 false (Some (e, r)) = (sizes, WNil).
+Proof. exact tar_walk_mutant_refuted. Qed.
+Print Assumptions C07_tar_walk_mutant_refuted.
 
 (* tar -i (cmd/desync/tar.go runTar): an interrupted or failed Tar goroutine closes the pipe, the chunker sees a
    clean end and ChunkStream may well return nil -- the command still fails because the Tar result is consulted
